@@ -981,6 +981,17 @@ package tree
 //@   loop 1
 //@     assigns elems(n.neigh), elems(n.br), ghost(rand_count), ghost(rand_last), ghost(rand_range)
 //@     invariant [every_slot_holds_an_original_pair] forall k int :: {n.neigh[k]} {n.br[k]} 0 <= k && k < len(n.neigh) ==> (exists m int :: {old(n.neigh[m])} 0 <= m && m < len(n.neigh) && n.neigh[k] == old(n.neigh[m]) && n.br[k] == old(n.br[m]))
+//@     step [slot_i_is_exchanged_with_the_drawn_slot_nothing_else_moves] j == ghost(rand_last) && n.neigh[rangeindex + 1] == atHead(n.neigh[j]) && n.neigh[j] == atHead(n.neigh[rangeindex + 1]) && n.br[rangeindex + 1] == atHead(n.br[j]) && n.br[j] == atHead(n.br[rangeindex + 1]) && (forall k int :: {n.neigh[k]} {n.br[k]} 0 <= k && k < len(n.neigh) && k != rangeindex + 1 && k != j ==> n.neigh[k] == atHead(n.neigh[k]) && n.br[k] == atHead(n.br[k]))
+
+// ShuffleTips (property C20): one permutation of all the tip names is drawn; tip i gets the name at position
+// perm[i]; the indexes are rebuilt afterwards
+//@ func (*tree.Tree).ShuffleTips
+//@   flag noframe
+//@   flag countcalls
+//@   requires t != nil
+//@   call math/rand.Perm [one_permutation_of_all_the_names] a0 == len(names)
+//@   call (*tree.Node).SetName [tip_i_gets_the_name_at_the_position_drawn_for_i] a0 == tips[rangeindex + 1] && a1 == names[p] && 0 <= p && p < len(names)
+//@   ensures [indexes_rebuilt_once] ghost(ncalls_ReinitIndexes) == old(ghost(ncalls_ReinitIndexes)) + 1 && ghost(ncalls_Perm) == old(ghost(ncalls_Perm)) + 1
 
 //@ func (*tree.Tree).LeastCommonAncestorUnrooted
 //@   flag treeop
